@@ -1,6 +1,7 @@
 import DnpProofs.Props.C08
 import DnpProofs.Props.C12
 import DnpProofs.Lemmas.Slice
+import DnpProofs.Lemmas.Lsq
 import Mathlib.Algebra.Module.LinearMap.Defs
 import Mathlib.Algebra.Module.Pi
 import Mathlib.Algebra.Order.Field.Basic
@@ -11,9 +12,13 @@ set_option linter.unusedSectionVars false
 /-!
 # C14 — baseline removal, normalisation, resampling and alignment laws
 
-`numpy.polyfit` is external: the least-squares fit enters as a linear map `P` (S1) that reproduces
-every sampled polynomial of degree ≤ deg (S2) and always returns one.  These are theorem
-HYPOTHESES, not axioms; the oracle exercises them on the implementation.
+`numpy.polyfit` is external.  The abstract laws are stated for a linear map `P` (S1) that reproduces
+every sampled polynomial of degree ≤ deg (S2) and always returns one; section `lsq` then DERIVES S1 and S2
+from the routine's documented contract alone — it returns a polynomial of degree ≤ deg minimising the
+squared error on the fitting points — whenever those points carry more than deg distinct abscissae
+(`lsq_exact`, `lsq_linear`, `lsq_unique`), and instantiates the three laws for `polyval(polyfit(..))`
+(`background_lsq_annihilates`, `background_lsq_idempotent`, `background_lsq_linear`).  The contract is a
+theorem HYPOTHESIS, not an axiom; the oracle exercises it on the implementation.
 -/
 namespace Dnp.C14
 open Np Dnp Dnp.Data Dnp.C12
@@ -40,6 +45,105 @@ theorem background_linear (P : (ι → K) →ₗ[K] (ι → K)) (a b : K) (y z :
   rw [add_sub_add_comm]
 
 end background
+
+/-! ### the least-squares contract of `numpy.polyfit` gives S1 and S2 -/
+section lsq
+open Polynomial Finset Dnp.Lsq
+variable {K ι : Type} [Field K] [LinearOrder K] [IsStrictOrderedRing K] [DecidableEq ι]
+
+/-- **S2**: data sampled from a polynomial of degree ≤ d is fitted by exactly that polynomial -/
+theorem lsq_exact {x : ι → K} {S : Finset ι} {d : ℕ} {q p : K[X]} {y : ι → K}
+    (hinj : Set.InjOn x S) (hcard : d < S.card) (hp : p.natDegree ≤ d) (hy : ∀ i ∈ S, y i = p.eval (x i))
+    (h : IsLsq x S d q y) : q = p := by
+  have hpn : Normal x S d p y := by
+    intro r _
+    apply Finset.sum_eq_zero
+    intro i hi
+    rw [hy i hi, sub_self, zero_mul]
+  exact Normal.unique hinj hcard h.1 hp h.normal hpn
+
+/-- **S1**: the fit of a linear combination is the linear combination of the fits -/
+theorem lsq_linear {x : ι → K} {S : Finset ι} {d : ℕ} {q q' q'' : K[X]} {y z : ι → K} (a b : K)
+    (hinj : Set.InjOn x S) (hcard : d < S.card)
+    (h : IsLsq x S d q y) (h' : IsLsq x S d q' z) (h'' : IsLsq x S d q'' (a • y + b • z)) :
+    q'' = C a * q + C b * q' :=
+  Normal.unique hinj hcard h''.1 (natDegree_lin a b h.1 h'.1) h''.normal (Normal.lin a b h.normal h'.normal)
+
+/-- the fit is unique, so "the" least-squares polynomial is well defined -/
+theorem lsq_unique {x : ι → K} {S : Finset ι} {d : ℕ} {q q' : K[X]} {y : ι → K}
+    (hinj : Set.InjOn x S) (hcard : d < S.card) (h : IsLsq x S d q y) (h' : IsLsq x S d q' y) : q = q' :=
+  Normal.unique hinj hcard h.1 h'.1 h.normal h'.normal
+
+/-- a sampled polynomial of degree ≤ d -/
+def IsPolyOn (x : ι → K) (d : ℕ) (f : ι → K) : Prop :=
+  ∃ p : K[X], p.natDegree ≤ d ∧ ∀ i, f i = p.eval (x i)
+
+/-- the background `polyval(polyfit(x[S], y[S], d), x)` as a LINEAR map, for any routine `fit` that meets the
+    least-squares contract -/
+def bgMap (x : ι → K) (S : Finset ι) (d : ℕ) (hinj : Set.InjOn x S) (hcard : d < S.card)
+    (fit : (ι → K) → K[X]) (hfit : ∀ y, IsLsq x S d (fit y) y) : (ι → K) →ₗ[K] (ι → K) where
+  toFun y := fun i => (fit y).eval (x i)
+  map_add' y z := by
+    funext i
+    have := lsq_linear (1 : K) 1 hinj hcard (hfit y) (hfit z) (by simpa using hfit (y + z))
+    have e : fit (y + z) = fit y + fit z := by simpa using this
+    simp [e]
+  map_smul' a y := by
+    funext i
+    have := lsq_linear a (0 : K) hinj hcard (hfit y) (hfit y) (by simpa using hfit (a • y))
+    have e : fit (a • y) = C a * fit y := by simpa using this
+    simp [e]
+
+theorem bgMap_apply (x : ι → K) (S : Finset ι) (d : ℕ) (hinj : Set.InjOn x S) (hcard : d < S.card)
+    (fit : (ι → K) → K[X]) (hfit : ∀ y, IsLsq x S d (fit y) y) (y : ι → K) (i : ι) :
+    bgMap x S d hinj hcard fit hfit y i = (fit y).eval (x i) := rfl
+
+/-- the background of anything is a sampled polynomial of degree ≤ d -/
+theorem bgMap_range (x : ι → K) (S : Finset ι) (d : ℕ) (hinj : Set.InjOn x S) (hcard : d < S.card)
+    (fit : (ι → K) → K[X]) (hfit : ∀ y, IsLsq x S d (fit y) y) (y : ι → K) :
+    IsPolyOn x d (bgMap x S d hinj hcard fit hfit y) :=
+  ⟨fit y, (hfit y).1, fun _ => rfl⟩
+
+/-- a sampled polynomial of degree ≤ d is its own background -/
+theorem bgMap_fix (x : ι → K) (S : Finset ι) (d : ℕ) (hinj : Set.InjOn x S) (hcard : d < S.card)
+    (fit : (ι → K) → K[X]) (hfit : ∀ y, IsLsq x S d (fit y) y) (f : ι → K) (hf : IsPolyOn x d f) :
+    bgMap x S d hinj hcard fit hfit f = f := by
+  obtain ⟨p, hp, hfp⟩ := hf
+  funext i
+  rw [bgMap_apply, lsq_exact hinj hcard hp (fun i _ => hfp i) (hfit f), hfp i]
+
+
+/-- remove_background annihilates every sampled polynomial of degree ≤ deg — from the least-squares contract alone -/
+theorem background_lsq_annihilates (x : ι → K) (S : Finset ι) (d : ℕ) (hinj : Set.InjOn x S) (hcard : d < S.card)
+    (fit : (ι → K) → K[X]) (hfit : ∀ y, IsLsq x S d (fit y) y) (f : ι → K) (hf : IsPolyOn x d f) :
+    f - bgMap x S d hinj hcard fit hfit f = 0 :=
+  background_annihilates _ (IsPolyOn x d) (bgMap_fix x S d hinj hcard fit hfit) f hf
+
+/-- applying it twice equals applying it once -/
+theorem background_lsq_idempotent (x : ι → K) (S : Finset ι) (d : ℕ) (hinj : Set.InjOn x S) (hcard : d < S.card)
+    (fit : (ι → K) → K[X]) (hfit : ∀ y, IsLsq x S d (fit y) y) (y : ι → K) :
+    (y - bgMap x S d hinj hcard fit hfit y) - bgMap x S d hinj hcard fit hfit (y - bgMap x S d hinj hcard fit hfit y)
+      = y - bgMap x S d hinj hcard fit hfit y :=
+  background_idempotent _ (IsPolyOn x d) (bgMap_range x S d hinj hcard fit hfit) (bgMap_fix x S d hinj hcard fit hfit) y
+
+/-- it is linear in the data -/
+theorem background_lsq_linear (x : ι → K) (S : Finset ι) (d : ℕ) (hinj : Set.InjOn x S) (hcard : d < S.card)
+    (fit : (ι → K) → K[X]) (hfit : ∀ y, IsLsq x S d (fit y) y) (a b : K) (y z : ι → K) :
+    (a • y + b • z) - bgMap x S d hinj hcard fit hfit (a • y + b • z)
+      = a • (y - bgMap x S d hinj hcard fit hfit y) + b • (z - bgMap x S d hinj hcard fit hfit z) :=
+  background_linear _ a b y z
+
+/-- the contract is satisfiable and the hypotheses are met by a concrete case: three points 0, 1, 2 fitted by a
+    straight line; data on the line y = 1 + 2x is its own fit -/
+example : IsLsq (fun i : Fin 3 => (i.val : ℚ)) Finset.univ 1 (C 1 + C 2 * X) (fun i => 1 + 2 * (i.val : ℚ)) := by
+  refine Normal.isLsq ?_ ?_
+  · exact (natDegree_add_le _ _).trans (max_le (by simp) ((natDegree_C_mul_le _ _).trans (by simp)))
+  · intro r _
+    apply Finset.sum_eq_zero
+    intro i _
+    simp
+
+end lsq
 
 /-! ### normalize -/
 section normalize
